@@ -83,4 +83,20 @@ def CC.toByte : CC → B
   | .success => 0x00#8 | .error => 0x01#8 | .errorInvalidData => 0x02#8
   | .errorInvalidLength => 0x03#8 | .errorNotReady => 0x04#8 | .errorUnsupportedCmd => 0x05#8
 
+/- The `as u8` values of the field-less enums that encoder arguments are drawn from: only these can be
+expressed through the API (the driver and the executor refuse anything else).  `Tie/Consts.lean` proves
+each list equal to the discriminants of the Rust enum of /repo's working tree, in declaration order. -/
+namespace ArgEnum
+def setEidOp : List Nat := [0, 1, 2, 3]            -- MCTPSetEndpointIDOperations
+def versionQuery : List Nat := [0xFF, 0, 1, 2, 3]  -- MCTPVersionQuery
+def allocOp : List Nat := [0, 1, 2]                -- AllocateEndpointIDOperation
+def msgType : List Nat := [0x00, 0x05, 0x06, 0x7E, 0x7F, 0xFF]   -- MessageType
+def completionCode : List Nat := [0, 1, 2, 3, 4, 5]              -- CompletionCode
+def assignStatus : List Nat := [0, 1]              -- MCTPSetEndpointIDAssignmentStatus (a flag in the op language)
+def allocStatus : List Nat := [0, 1, 2]            -- MCTPSetEndpointIDAllocationStatus
+def endpointType : List Nat := [0, 1]              -- MCTPGetEndpointIDEndpointType
+def endpointIdType : List Nat := [0, 1, 2, 3]      -- MCTPGetEndpointIDEndpointIDType
+def routingEntryType : List Nat := [0, 1, 2, 3]    -- RoutingInformationUpdateEntryType
+end ArgEnum
+
 end Mctp
